@@ -1,6 +1,7 @@
 import Pyunicorn.Model.Proto
 import Pyunicorn.Model.Access
 import Pyunicorn.Model.WhileKernels
+import Pyunicorn.Generated.StructC20Pyx
 /-! Line-protocol driver of C20: access traces / verdicts of the raw-pointer
 routines and outcomes of the `while` kernels. -/
 open Pyunicorn Pyunicorn.Proto Pyunicorn.Access
@@ -25,6 +26,36 @@ def showTrace (sz : List Nat) (keep : Nat) (tr : List Acc) : String :=
   let ks := dedupSorted (((tr.filter (·.arr < keep)).map accKey).mergeSort keyLe)
   let body := ks.map fun (a, o, w, k) => s!"{a}:{o}:{w}:{if k == 1 then "w" else "r"}"
   (verdictOf sz tr).str ++ "|" ++ (if body.isEmpty then "-" else join body)
+
+/-! ### typed-buffer kernels: outcome predicted from the generated site lists -/
+open Pyunicorn.Generated.StructC20Pyx in
+/-- `name=value,...` -/
+def kvs (s : String) : List (String × Int) :=
+  (splitTok s ",").filterMap fun t =>
+    match t.splitOn "=" with
+    | [k, v] => some (k, v.toInt!)
+    | _ => none
+
+def envOf (kv : List (String × Int)) : String → Int :=
+  fun s => ((kv.find? (·.1 == s)).map (·.2)).getD 0
+
+/-- all assignments of the loop variables to values in `[-1, B]` on top of `kv` -/
+def allEnvs (vars : List String) (B : Int) (kv : List (String × Int)) : List (List (String × Int)) :=
+  vars.foldl (fun acc x => acc.flatMap fun e =>
+    (List.range (B + 2).toNat).map fun (d : Nat) => (x, (d : Int) - 1) :: e) [kv]
+
+open Pyunicorn.Generated.StructC20Pyx in
+/-- `raise`: some index that is evaluated unconditionally leaves its axis for loop-variable values
+in their ranges (IndexError under `boundscheck=True`); `ok`: no listed index ever does;
+`either`: only conditionally evaluated ones do -/
+def predictKernel (key : String) (B : Int) (kv : List (String × Int)) : String :=
+  match kernel_table.find? (·.1 == key) with
+  | none => "unknown-kernel"
+  | some (_, sites, lv) =>
+    let es := allEnvs lv B kv
+    let bad (s : PSite) : Bool := s.g && !(decide (0 ≤ s.idx) && decide (s.idx < s.dim))
+    if es.any (fun e => (sites (envOf e)).any fun s => bad s && !s.cond) then "raise"
+    else if es.any (fun e => (sites (envOf e)).any bad) then "either" else "ok"
 
 def answer (toks : List String) : String :=
   match toks with
@@ -65,6 +96,7 @@ def answer (toks : List String) : String :=
       (if WhileKernels.tablesOK r.length n.toNat! (intMat sn) (ints ord) r then "valid|" else "any|") ++
       WhileKernels.showOutcome
         (WhileKernels.adaptive n.toNat! a.toNat! (intMat sn) (ints ord) r)
+  | ["psites", key, b, kv] => predictKernel key b.toInt! (kvs kv)
   | _ => "bad-request"
 
 def main : IO Unit := runDriver answer
